@@ -139,6 +139,32 @@ pub fn run(tier: &str, seed: i64) -> Outcome {
         }
     });
     reports.push(SpaceReport { name: format!("E4: {} (root, depth, table) cases, every stop point 0..=P each", cases.len()), states: acc.states, exhaustive: true, note: format!("[{:.1}s]", t0.elapsed().as_secs_f64()) });
+    // the fallback path on its own (stop before the first node: the answer comes from the fallback alone), over large
+    // universes: every geometry of checks, pins, double attacks and castling decides whether that answer is legal
+    let t1 = std::time::Instant::now();
+    let fb_spaces = vec![
+        Space::all(Universe::U2),
+        Space::slice(Universe::U3, if q { 16 } else { 2 }, off),
+        Space::slice(Universe::UC { extras: 1 }, if q { 4 } else { 1 }, off),
+        Space::slice(Universe::UPIN, if q { 8 } else { 1 }, off),
+        Space::slice(Universe::UDBL, if q { 8 } else { 1 }, off),
+        Space::slice(Universe::UCK { extras: 1 }, if q { 16 } else { 2 }, off),
+        Space::all(Universe::UE { extras: 0, capturer_files: None, slider_only: false }),
+        Space::all(Universe::UP),
+    ];
+    let (fb, fb_reports) = run_spaces(&fb_spaces, &|ctx, acc| {
+        let spec = RootSpec::fen(&ctx.pos.fen6(false));
+        let before = acc.states;
+        stop_points(&spec, 1, false, Some(0), acc);
+        acc.states = before; // run_spaces counts the state itself
+    });
+    let fb_states = fb.states;
+    let mut acc = acc;
+    acc.merge(fb);
+    for r in fb_reports {
+        reports.push(SpaceReport { name: format!("fallback path (stop at poll 0, depth 1): {}", r.name), states: r.states, exhaustive: true, note: r.note });
+    }
+    let _ = (t1, fb_states);
     let mut out = Outcome::new(acc, reports, "for every (root, depth limit, fresh/warm table): the free run's poll count P is measured, then the search is re-run once for every N in 0..=P with the stop flag flipped inside the N-th node-entry poll (hook H2); each run must return a model-legal move when one exists, enter no further node after the flip, and leave the caller's game unchanged");
     out.traces_validated = out.acc.evaluations;
     out.assumptions = vec!["'promptly' is decided in virtual time: the number of node entries after the flip must be zero; wall-clock latency is not modelled".into(), "depth limits <= 3 (4 thorough); single stop per search (the flag never goes back up within one search)".into()];
